@@ -13,14 +13,16 @@ Import ListNotations.
 (** The full statement
       forall fo toks dc, wf toks dc = true ->
         strip_bonding_descriptors fo (render (decorate toks dc)) = strip_spec fo toks dc
-    is NOT provable for the current code: three defect classes lie inside the domain
-    ([class_of] = 1 desc_after_symbol_ring, 2 zero_order_symbol, 3 coarse_multiplier), each refuted
-    by a concrete witness below.  [excluded toks dc = false] says exactly [class_of … = 0]. *)
+    is NOT provable for the current code: one defect class lies inside the domain
+    ([class_of] = 3 coarse_multiplier: a multiplier `|n` in a coarse fragment), refuted by a
+    concrete witness below.  [excluded toks dc = false] says exactly "no multiplier token".
+    (Classes 1 desc_after_symbol_ring and 2 zero_order_symbol were repaired in /repo by the
+    commits f3554b8 and 0d0f450; their witnesses are positive examples now.) *)
 Theorem C13_partial : forall fo toks dc, wf toks dc = true -> excluded toks dc = false ->
   strip_bonding_descriptors fo (render (decorate toks dc)) = strip_spec fo toks dc.
 Proof. exact strip_correct. Qed.
 
-(** non-vacuity: [>]=C(/Cl)=1-[$a]C[NH3+]#[<]C1=[!2][$] is in the domain, outside the classes, and its
+(** non-vacuity: [>]=C(/Cl)=1-[$a]C[NH3+]#[<]C1=[!2][$] is in the domain, outside the class, and its
     specification value is the expected one *)
 Example C13_nonvacuous : wf nv_toks nv_dc = true /\ excluded nv_toks nv_dc = false /\
   strip_spec fo0 nv_toks nv_dc =
@@ -28,40 +30,35 @@ Example C13_nonvacuous : wf nv_toks nv_dc = true /\ excluded nv_toks nv_dc = fal
         [(1, "/"%char); (0, "/"%char)], [(3, [(S "weight", VFlt (S "1.0"))])]).
 Proof. exact nonvacuous. Qed.
 
-(** refutations of the full statement, one per defect class *)
-Theorem C13_refuted_desc_after_symbol_ring :     (* C=1[$]CC1 *)
-  wf w1_toks w1_dc = true /\ class_of (decorate w1_toks w1_dc) = 1 /\
-  strip_bonding_descriptors fo0 (render (decorate w1_toks w1_dc)) <> strip_spec fo0 w1_toks w1_dc.
-Proof. exact refuted_ring. Qed.
-Theorem C13_refuted_zero_order_symbol :          (* C.[$] *)
-  wf w2_toks w2_dc = true /\ class_of (decorate w2_toks w2_dc) = 2 /\
-  strip_bonding_descriptors fo0 (render (decorate w2_toks w2_dc)) <> strip_spec fo0 w2_toks w2_dc.
-Proof. exact refuted_zero. Qed.
+(** the witnesses of the two repaired classes: C=1[$]CC1 keeps its ring digit and the descriptor
+    has order 1; C.[$] gives order 0 and the clean text C *)
+Example C13_fixed_desc_after_symbol_ring : wf w1_toks w1_dc = true /\ excluded w1_toks w1_dc = false /\
+  strip_bonding_descriptors fo0 (render (decorate w1_toks w1_dc)) = Ok (S "C=1CC1", [(0, [S "$1"])], [], []).
+Proof. exact fixed_ring. Qed.
+Example C13_fixed_zero_order_symbol : wf w2_toks w2_dc = true /\ excluded w2_toks w2_dc = false /\
+  strip_bonding_descriptors fo0 (render (decorate w2_toks w2_dc)) = Ok (S "C", [(0, [S "$0"])], [], []).
+Proof. exact fixed_zero. Qed.
+
+(** refutation of the full statement *)
 Theorem C13_refuted_coarse_multiplier :          (* [<][#PEO]|4[>] *)
   wf w3_toks w3_dc = true /\ class_of (decorate w3_toks w3_dc) = 3 /\
   strip_bonding_descriptors fo0 (render (decorate w3_toks w3_dc)) <> strip_spec fo0 w3_toks w3_dc.
 Proof. exact refuted_mult. Qed.
 
-(** stages: the theorem on sub-grammars.  Without ring markers (and multipliers) only the order-0
-    symbol before a non-leading descriptor is excluded. *)
+(** stages: the theorem on sub-grammars (none contains a multiplier, so nothing is excluded) *)
 Theorem C13_chains : forall fo toks dc, forallb stage_a toks = true -> wf toks dc = true ->
-  nonlead_zero (decorate toks dc) = false ->
   strip_bonding_descriptors fo (render (decorate toks dc)) = strip_spec fo toks dc.
 Proof. exact strip_chains. Qed.
 Theorem C13_branches : forall fo toks dc, forallb stage_b toks = true -> wf toks dc = true ->
-  nonlead_zero (decorate toks dc) = false ->
   strip_bonding_descriptors fo (render (decorate toks dc)) = strip_spec fo toks dc.
 Proof. exact strip_branches. Qed.
 Theorem C13_rings : forall fo toks dc, forallb stage_c toks = true -> wf toks dc = true ->
-  nonlead_zero (decorate toks dc) = false -> stale_ring false (decorate toks dc) = false ->
   strip_bonding_descriptors fo (render (decorate toks dc)) = strip_spec fo toks dc.
 Proof. exact strip_rings. Qed.
 Theorem C13_atomistic : forall fo toks dc, forallb stage_d toks = true -> wf toks dc = true ->
-  nonlead_zero (decorate toks dc) = false -> stale_ring false (decorate toks dc) = false ->
   strip_bonding_descriptors fo (render (decorate toks dc)) = strip_spec fo toks dc.
 Proof. exact strip_atomistic. Qed.
 Theorem C13_coarse : forall fo toks dc, forallb stage_e toks = true -> wf toks dc = true ->
-  nonlead_zero (decorate toks dc) = false -> stale_ring false (decorate toks dc) = false ->
   strip_bonding_descriptors fo (render (decorate toks dc)) = strip_spec fo toks dc.
 Proof. exact strip_coarse. Qed.
 Example C13_stages_nonvacuous :
@@ -70,9 +67,9 @@ Example C13_stages_nonvacuous :
   in_stage stage_e ex_e_toks ex_e_dc = true.
 Proof. exact stages_nonvacuous. Qed.
 
-(** bounded exhaustive (vm_compute), independent of the induction: all 579195 item lists of length
-    <= 5 over a 14-item alphabet, of which 32420 are in the domain and outside the classes *)
-Theorem C13_small : forall items, In items (lists_upto small_bound small_alphabet) ->
+(** bounded exhaustive (vm_compute), independent of the induction: all 813616 item lists of length
+    <= 5 over a 15-item alphabet, of which 48420 are in the domain (no multiplier in the alphabet) *)
+Theorem C13_small : forall items, length items <= small_bound -> (forall i, In i items -> In i small_alphabet) ->
   wf_items ZStart 0 items = true -> excluded_items items = false ->
   strip_bonding_descriptors fo0 (render items) = spec_items fo0 items.
 Proof. exact strip_small. Qed.
@@ -102,8 +99,6 @@ Theorem C13_table_kinds : forall c, is_kind c = char_in c kind_chars.
 Proof. exact is_kind_kind_chars. Qed.
 
 Print Assumptions C13_partial.
-Print Assumptions C13_refuted_desc_after_symbol_ring.
-Print Assumptions C13_refuted_zero_order_symbol.
 Print Assumptions C13_refuted_coarse_multiplier.
 Print Assumptions C13_chains.
 Print Assumptions C13_branches.
